@@ -4,6 +4,7 @@
 mod arith;
 mod conc;
 mod eqv;
+mod progen;
 mod lang;
 mod prec;
 mod print;
@@ -40,6 +41,7 @@ fn main() {
             "stdlibx" => out(&stdlibx::run(&args[2..])),
             "total" => out(&total::run(&args[2..])),
             "lang" => out(&lang::run(&args[2..])),
+            "gen" => out(&progen::run(&args[2..])),
             "run" => {
                 let text = if args[2] == "-" { std::io::read_to_string(std::io::stdin()).unwrap() } else { args[2].clone() };
                 out(&probe::run_text(&text, true))
